@@ -1718,6 +1718,10 @@ class RTCSctpTransport(AsyncIOEventEmitter):
             # only reset streams once all their user data has been acknowledged,
             # otherwise data still in flight arrives after the peer has reset
             # its end of the stream
+            # likewise, data which was abandoned is only gone once the FORWARD TSN
+            # reporting it has been acknowledged
+            if uint32_gt(self._advanced_peer_ack_tsn, self._last_sacked_tsn):
+                return
             busy = set(chunk.stream_id for chunk in self._sent_queue)
             busy.update(chunk.stream_id for chunk in self._outbound_queue)
             busy.update(channel.id for channel, _, _ in self._data_channel_queue)
